@@ -103,6 +103,23 @@ def run(v, tier, rng):
               "\tINT\t0x80\n", "\tINT\tAX\n", "\tINT\tlbl\n", "\tDB\t1/0\n", "\tDB\t1%0\n", "\tJMP\t1/0\n", "\tMOV\tAX,[1/0]\n", "\tDD\t-9223372036854775808/-1\n",
               "\tDD\t9223372036854775807*9223372036854775807\n", "\tTIMES\t3 DB 1\n", "\tMOV\n", "MOV", "\tMOV\tAX,", ":", "EQU", "\tDB\t\"unterminated\n", "\tDB\t'\n"]:
         add("special", text=t)
+    # expression shapes: constants, labels (defined / undefined), $, EQU names and parenthesised terms in every position of
+    # products, quotients and sums, in every operand position that takes an expression
+    import itertools
+    atoms = ["2", "lbl", "undef", "$", "K", "(1+2)", "0"]
+    pats = ["%s*%s*%s", "%s*%s/%s", "%s/%s*%s", "%s+%s+%s", "%s-%s+%s", "%s*%s+%s", "%s+%s*%s", "%s*%s*%s*4", "%s*%s"]
+    posns = ["\tDW\t%s\n", "\tDD\t1,%s\n", "\tMOV\tAX,%s\n", "\tMOV\tAX,[%s]\n", "\tMOV\tCX,[BX+%s]\n", "X\tEQU\t%s\n\tDW\tX\n", "\tRESB\t%s\n", "\tJMP\t%s\n", "\tADD\tEAX,%s\n"]
+    shapes = []
+    for pat in pats:
+        k = pat.count("%s")
+        for tup in itertools.product(atoms, repeat=k):
+            shapes.append(pat % tup)
+    if tier == "quick":
+        rng.shuffle(shapes)
+        shapes = shapes[:700]
+    for si, e in enumerate(shapes):
+        for pos in (posns if tier == "thorough" else [posns[si % len(posns)], posns[(si * 7 + 3) % len(posns)]]):
+            add("exprshape", text="K\tEQU\t3\nlbl:\n" + pos % e)
     # scaling: length and nesting depth
     scale = []
     for nlines in ([1000, 10000] if tier == "quick" else [1000, 10000, 100000]):
